@@ -39,15 +39,22 @@ func gen(r *sim.Rng, tier string) *sim.Case {
 	}
 	n := r.Range(2, maxOps)
 	lowDom := []int{8, 64, 1 << 16}[r.N(3)]
+	edges := []int{0, 1, 63, 64, 65, 127, 128, 4095, 4096, 4097, 65534, 65535}
+	low := func() int {
+		if r.Pct(25) {
+			return edges[r.N(len(edges))]
+		}
+		return r.N(lowDom)
+	}
 	for i := 0; i < n; i++ {
 		h := highs[r.N(len(highs))]
 		switch k := r.Pick(6, 4, 3, 1, 3); k {
 		case 0:
-			c.Ops = append(c.Ops, sim.Op{Op: "Add", K: h, V: r.N(lowDom)})
+			c.Ops = append(c.Ops, sim.Op{Op: "Add", K: h, V: low()})
 		case 1:
-			c.Ops = append(c.Ops, sim.Op{Op: "Remove", K: h, V: r.N(lowDom)})
+			c.Ops = append(c.Ops, sim.Op{Op: "Remove", K: h, V: low()})
 		case 2:
-			c.Ops = append(c.Ops, sim.Op{Op: "Contains", K: h, V: r.N(lowDom)})
+			c.Ops = append(c.Ops, sim.Op{Op: "Contains", K: h, V: low()})
 		case 3:
 			c.Ops = append(c.Ops, sim.Op{Op: "Len"})
 		case 4:
@@ -63,7 +70,14 @@ func gen(r *sim.Rng, tier string) *sim.Case {
 			if r.Pct(40) {
 				name = "RemoveRun"
 			}
-			c.Ops = append(c.Ops, sim.Op{Op: name, K: h, V: r.N(1<<16 - step*cnt + 1), D: cnt, Ks: []int{step, r.N(3)}})
+			st := r.N(1<<16 - step*cnt + 1)
+			switch r.N(5) {
+			case 0:
+				st = 0
+			case 1:
+				st = 1<<16 - 1 - step*(cnt-1) // the run ends exactly at 65535
+			}
+			c.Ops = append(c.Ops, sim.Op{Op: name, K: h, V: st, D: cnt, Ks: []int{step, r.N(3)}})
 		}
 	}
 	// every run ends with all three enumerations, complete
